@@ -165,7 +165,7 @@ K("G2.cell_corners", ["C06", "C11", "C12"], CELL, "check_cell_corners", "Cell::t
 K("G3.cell_absolute_position", ["C06"], CELL, "check_cell_absolute_position", "Cell::absolute_position / localize_point",
   "exact translation by (x,2y); localize_point is its inverse; abs(c+d) = abs(c)+d")
 K("G3.point_add_sub", ["C06"], POINT, "check_point_add_sub", "Point::add / sub", "exact on the lattice, inverse of each other")
-K("G4.cell_adjacent", ["C10"], CELL, "check_cell_adjacent", "Cell::is_adjacent", "Chebyshev distance <= 1, symmetric; a gap of one cell separates")
+K("G4.cell_adjacent", ["C10", "C09"], CELL, "check_cell_adjacent", "Cell::is_adjacent", "Chebyshev distance <= 1, symmetric; a gap of one cell separates")
 K("G4.cell_localize_bounds", ["C06", "C10", "C12"], CELL, "check_cell_localize_bounds",
   "Cell::localize_cell / Add / Sub / rearrange_bound / is_bounded / cmp", "subtract / inverse / per-axis min-max / inclusive box / row-major order")
 K("G4.cell_neighbours", ["C03"], CELL, "check_cell_neighbours", "Cell::top_left..bottom_right", "the eight neighbour offsets")
@@ -203,6 +203,8 @@ RECT = "buffer/fragment_buffer/fragment/rect.rs"
 K("C11.arc_scale", ["C11"], ARC, "check_arc_scale", "Arc::scale", "start, end, radius = IEEE product with s; major/sweep/rotation flags unchanged")
 K("C14.arc_ctors", ["C14", "C05"], ARC, "check_arc_ctors", "Arc::new / major / new_with_sweep / sort_reorder_end_points / arcs_to",
   "end points ordered; sweep flipped exactly when swapped; Arc::new(a,b,r) = new_with_sweep(b,a,r,true)")
+K("C05.is_aabb_right_angle_arc", ["C01", "C05"], ARC, "check_is_aabb_right_angle_arc", "Arc::is_aabb_right_angle_arc (Arc::center stubbed: any point, NaN included)",
+  "never panics, whatever the arc and its centre (NaN when the chord exceeds the diameter); true exactly when the centre is axis-aligned with both end points")
 K("C06.arc_absolute_position", ["C06"], ARC, "check_arc_absolute_position", "Arc::absolute_position",
   "end points translated exactly, radius and flags unchanged, end point order preserved")
 K("C05.arc_touching", ["C05", "C12"], ARC, "check_arc_touching", "Arc::is_touching / has_endpoint / bounds", "equalities of end points; bounds = box of the chord")
@@ -532,6 +534,16 @@ K("N3.canvas_margin", ["C12"], CB, "check_canvas_margin", "CellBuffer::get_size 
   timeout=600, assumes=["CellBuffer::bounds replaced by an opaque result"])
 B("N2.cellbuffer_bounds", ["C12"], CB, "bounded_cellbuffer_bounds", "CellBuffer::bounds", "per-axis min / max of the occupied cells; None iff empty",
   "all 31 non-empty subsets of 5 cells + 2 empty drawings (BTreeMap iteration)")
+B("S7.isolated_characters_once", ["C09"], CB, "bounded_isolated_characters_once",
+  "CellBuffer::endorse_to_fragment_spans (Vec<Span> from cells, Span::endorse / re_endorse, Contacts, merge_fragment_spans)",
+  "the same fragment is never emitted twice (C09: 'nor the same line twice'), also for characters whose own fragments do not touch each other",
+  "every character of ASCII_PROPERTIES and UNICODE_FRAGMENTS x 6 layouts (alone at two places, doubled, stacked, inside a label, two apart)")
+B("C01.entry_points_total", ["C01"], CB, "bounded_entry_points_total",
+  "to_svg / to_svg_string_pretty / to_svg_string_compressed / to_svg_with_settings / to_svg_with_override_size (whole pipeline, native, overflow checks on)",
+  "no panic, a non-empty string is returned",
+  "all strings of <= 3 characters (thorough 4) over 31 characters (zero-width, controls, non-BMP, double-width, quote, backslash, braces, legend and drawing characters, the arc glyph U+2939) "
+  "through the compressed entry point, those of <= 2 characters and 13 fixed inputs (legend fragments, 3 bundled diagrams) through all five entry points x scales 0.001, 8, 1e6",
+  timeout=600, timeout_thorough=3600)
 B("N1.get_size_every_route", ["C12"], CB, "bounded_get_size_every_route", "CellBuffer::get_size / get_node_with_size / From<&str> / DerefMut<Target = BTreeMap>",
   "the canvas follows the cells that are in the buffer now, whichever way they got there (parsed, inserted through the map interface, removed)",
   "5 texts x 64 subsets of 6 inserted cells x {keep, remove the last inserted} x scales 1, 8")
